@@ -18,13 +18,13 @@ use crate::{
 pub const DEF: PropDef = PropDef {
     id: "C01",
     groups,
-    rule: "matrix: all 6 entry points x 4 input shapes x 4 output shapes ({(), ZST+Drop, sized, sized+Drop}) x {bench,test} x {T=1,T=3} enumerated; random: entry, shapes, sample_size 0..=40 (biased to 0,1,2), sample_count 0..=12, threads 1..=6, bench/test, explicit or tuned sample size, 0..=4 input counter kinds, and for T=1 a panic plan (generator / counter / benched / output destructor / input destructor at occurrence k); \
+    rule: "matrix: all 6 entry points x 4 input shapes x 4 output shapes ({(), ZST+Drop, sized, sized+Drop}) x {bench,test} x {T=1,T=3} enumerated; random: entry, shapes, sample_size 0..=40 (biased to 0,1,2), sample_count 0..=12, threads 1..=6, bench/test, explicit or tuned sample size, 0..=4 input counter kinds, and a panic plan (T = 1, or all threads of T > 1 on real threads; generator / counter / benched / output destructor / input destructor at occurrence k); \
            non-trivial = sample_size >= 2 effective (at least two slots exist so a swap or double use is possible) and at least one call happened; distinct = distinct (entry, input shape, output shape, loop path, T>1, panic role, test mode, tuned) cells are reported in classes, distinct cases by serialized case.",
     assumptions: &[
         "values carry an id (sized shapes) or are counted (zero-sized shapes have no identity: multiplicities and order only)",
         "instrumented sized+Drop values own no heap memory so that a double drop is observed instead of crashing; reads of uninitialised slots surface as ids that were never generated",
         "T > 1 runs on real threads: every per-thread log is deterministic, cross-thread interleavings are not controlled here (C08 does that under the scheduler)",
-        "panic plans are only generated for T = 1 here; a panic in a strict subset of T > 1 threads is C08's domain",
+        "with T > 1 the panic plan is given to every thread and real timing decides which threads it reaches first; schedules that single out one thread are C08's domain",
     ],
     journal: true,
     timeout_s: (300, 3600),
@@ -344,9 +344,9 @@ pub fn check_case(c: &LoopCase) -> Verdict {
     if c.threads as usize > MAX_THREADS - 1 || c.threads == 0 {
         return Verdict::Inconclusive("bad thread count".into());
     }
-    if c.panic.is_some() && c.effective_threads() > 1 {
-        return Verdict::pass(false);
-    }
+    // With T > 1 a planned panic fires on every thread (each at its own k-th
+    // occurrence) or, through the threads that reach a barrier first, only on
+    // some: both must end the run with a panic on the caller (F3).
     let o = run_loop(c);
     if o.abandoned {
         return Verdict::Inconclusive("runaway run (event budget)".into());
